@@ -680,6 +680,121 @@ def gen_timeline_tick(cls):
 
 
 
+# ---- Track.perform_event: guards, dispatch, control / program change -----------------------------------------------------------------
+EVENT = {"active": ("e_active", "bool"), "duration": ("e_dur", "time")}
+FIELDS["event"] = EVENT
+KIND_OF_TYPE = {"EVENT_TYPE_ACTION": ("KAction", ["cb"], {}),
+                "EVENT_TYPE_CONTROL": ("KControl", ["control", "value", "channel"], {"control": "control", "value": "value", "channel": "channel"}),
+                "EVENT_TYPE_PROGRAM_CHANGE": ("KProgram", ["program_change", "channel"], {"program_change": "program_change", "channel": "channel"}),
+                "EVENT_TYPE_NOTE": ("KNote", ["vs"], {})}
+OUT_OF_MODEL_TYPES = {"EVENT_TYPE_OSC", "EVENT_TYPE_SUPERCOLLIDER", "EVENT_TYPE_PATCH_CREATE", "EVENT_TYPE_PATCH_SET", "EVENT_TYPE_PATCH_TRIGGER"}
+EVENT_CALLBACKS = ["if self.timeline.on_event_callback:\n    self.timeline.on_event_callback(self, event)",
+                   "if self.on_event_callbacks:\n    for callback in self.on_event_callbacks:\n        callback(event)"]
+DEVICE_CALLS = {"control": ("CControl", 3), "program_change": ("CProgram", 2)}
+
+
+class PerformBlock(TBlock):
+    def outcome(self, env, what):
+        return "(%s, %s, %s, %s)" % (env["self"][1], env["calls"][1], env["n"][1], what)
+
+    def on_return(self, v, env):
+        if v[0] != "none":
+            raise Reject("return of a value")
+        return self.outcome(env, "PfOk")
+
+    def types_of(self, test):
+        """event.type == EVENT_TYPE_X [or event.type == EVENT_TYPE_Y] -> names"""
+        parts = test.values if isinstance(test, ast.BoolOp) and isinstance(test.op, ast.Or) else [test]
+        out = []
+        for t in parts:
+            if not (isinstance(t, ast.Compare) and len(t.ops) == 1 and isinstance(t.ops[0], ast.Eq) and ast.unparse(t.left) == "event.type"
+                    and isinstance(t.comparators[0], ast.Name)):
+                return None
+            out.append(t.comparators[0].id)
+        return out
+
+    def classify(self, st, env):
+        if is_log(st) or ast.unparse(st) in EVENT_CALLBACKS:       # no event callback is registered in the model
+            return [], lambda env, go: go(env)
+        if isinstance(st, ast.Expr) and isinstance(st.value, ast.Call) and isinstance(st.value.func, ast.Attribute) and not st.value.keywords \
+                and ast.unparse(st.value.func.value) == "self.output_device" and st.value.func.attr in DEVICE_CALLS:
+            c = st.value
+            ctor, arity = DEVICE_CALLS[c.func.attr]
+
+            def render(env, go):
+                args = [self.ex(a, env) for a in c.args]
+                if len(args) != arity or any(a[0] != "int" for a in args):
+                    raise Reject("device call not understood: " + ast.unparse(c))
+                e_ok, e_bad = dict(env), dict(env)
+                e_ok["calls"], e_ok["n"] = ("calls", "calls"), ("nat", "n")
+                e_bad["n"] = ("nat", "(S %s)" % env["n"][1])
+                # the scripted device fault of the model: the call with that number raises instead of being delivered
+                return ("if dev_emit fail %s then let calls := (%s ++ [%s %s]) in\n  let n := (S %s) in\n  %s else %s"
+                        % (env["n"][1], env["calls"][1], ctor, " ".join(a[1] for a in args), env["n"][1], go(e_ok), self.outcome(e_bad, "PfRaise")))
+            return ["calls", "n"], render
+        return TBlock.classify(self, st, env)
+
+    def special_stmt(self, st, rest, env, go):
+        if isinstance(st, ast.If) and self.types_of(st.test) is not None:
+            arms, node, seen = [], st, set()
+            while True:
+                names = self.types_of(node.test)
+                if names is None:
+                    raise Reject("dispatch on event.type not understood: " + ast.unparse(node.test))
+                for nm in names:
+                    if nm in seen or nm not in set(KIND_OF_TYPE) | OUT_OF_MODEL_TYPES:
+                        raise Reject("event type %s" % nm)
+                    seen.add(nm)
+                    if nm in KIND_OF_TYPE:
+                        if len(names) != 1:
+                            raise Reject("a kind of the model shares its branch")
+                        arms.append((nm, node.body))
+                if len(node.orelse) == 1 and isinstance(node.orelse[0], ast.If):
+                    node = node.orelse[0]
+                    continue
+                if not (len(node.orelse) == 1 and isinstance(node.orelse[0], ast.Raise)):
+                    raise Reject("the dispatch on event.type does not end in `else: raise`")
+                break
+            if [a for a, _ in arms] != list(KIND_OF_TYPE) and sorted(a for a, _ in arms) != sorted(KIND_OF_TYPE):
+                raise Reject("kinds dispatched: %r" % [a for a, _ in arms])
+            out = []
+            for nm, body in arms:
+                ctor, binders, attrs = KIND_OF_TYPE[nm]
+                if nm == "EVENT_TYPE_ACTION":
+                    t = "perform_action %s %s %s cb" % (env["self"][1], env["calls"][1], env["n"][1])
+                elif nm == "EVENT_TYPE_NOTE":
+                    t = "perform_note fail nowT %s %s %s vs" % (env["self"][1], env["calls"][1], env["n"][1])
+                else:
+                    e2 = dict(env)
+                    for a, b in attrs.items():
+                        e2["event." + a] = ("int", b)
+                    t = self.block(list(body) + list(rest), e2, self.k_now, 1)
+                out.append("  | %s %s => %s" % (ctor, " ".join(binders), t))
+            order = {"KNote": 0, "KAction": 1, "KControl": 2, "KProgram": 3}
+            out.sort(key=lambda s_: order[s_.split()[1]])
+            return "match e_kind %s with\n%s\n  end" % (env["event"][1], "\n".join(out))
+        return TBlock.special_stmt(self, st, rest, env, go)
+
+
+def gen_perform_event(cls):
+    fn = method(cls, "perform_event")
+    signature(fn, 2)
+    if fn.args.args[1].arg != "event":
+        raise Reject("perform_event: parameter name")
+    # the branches that are not translated (action, note, and the event types the model does not have) are emptied first:
+    # their text is not read at all (Sched/SrcGlue.v perform_action / perform_note stand for the first two)
+    import copy as _copy
+    fn = _copy.deepcopy(fn)
+    for node in ast.walk(fn):
+        if isinstance(node, ast.If) and PerformBlock.types_of(None, node.test) is not None:
+            if not any(t in ("EVENT_TYPE_CONTROL", "EVENT_TYPE_PROGRAM_CHANGE") for t in PerformBlock.types_of(None, node.test)):
+                node.body = [ast.Pass()]
+    b = PerformBlock(fn, reserved=(RESERVED | {"fail", "nowT", "n", "cb", "vs", "perform_action", "perform_note", "dev_emit"}) - {"c"})
+    env = {"self": ("track", "self"), "event": ("event", "event"), "calls": ("calls", "[]"), "n": ("nat", "n")}
+    term = b.run(body_of(fn), env, lambda e: b.outcome(e, "PfOk"))
+    return term, lines_of(fn)
+
+
 # ---- Track.tick (the non-interpolating branch) ------------------------------------------------------------------------------------
 TRACK_ADVANCE = "self.current_time, self._tick_grid = advance_on_tick_grid(self.current_time, self.timeline.ticks_per_beat, self._tick_grid)"
 NON_INTERPOLATING = "self.interpolate is None or self.interpolate == INTERPOLATION_NONE"
@@ -766,7 +881,7 @@ class TrackTickBlock(TBlock):
             e2 = dict(env)
             e2["self"], e2["calls"] = ("track", "self"), ("calls", "calls")
             # Model.v perform_event (trusted glue): the device calls, or the request to run a callback
-            return ("match current_event with\n  | None => %s\n  | Some ev =>\n    let '(self, c, n, pf) := perform_event (dev_fail cfg) nowT %s ev n in\n    let calls := (%s ++ c) in\n"
+            return ("match current_event with\n  | None => %s\n  | Some ev =>\n    let '(self, c, n, pf) := src_track_perform_event (dev_fail cfg) nowT %s ev n in\n    let calls := (%s ++ c) in\n"
                     "    match pf with PfOk => %s | PfRaise => %s | PfCallback cb => %s end\n  end"
                     % (go(env), env["self"][1], env["calls"][1], go(e2), self.outcome(e2, "TRaise"), self.outcome(e2, "TCallback cb")))
         return TBlock.special_stmt(self, st, rest, env, go)
@@ -783,7 +898,7 @@ def gen_track_tick(cls):
     fn = method(cls, "tick")
     forbid(fn, BAD + (ast.Lambda,))
     signature(fn, 1)
-    a = TrackTickBlock(fn, reserved=RESERVED | {"ev", "fuel", "nowT", "n", "pf", "cb", "perform_event", "current_event"})
+    a = TrackTickBlock(fn, reserved=RESERVED | {"ev", "fuel", "nowT", "n", "pf", "cb", "src_track_perform_event", "current_event"})
     a.aux = []
     first = a.run(body_of(fn), {"self": ("track", "self"), "calls": ("calls", "[]")}, lambda e: (_ for _ in ()).throw(Reject("Track.tick has no try statement")))
     if len(a.aux) != 1:
@@ -842,6 +957,9 @@ def main(out_path):
     aux, term, lines = gen_timeline_tick(tl)
     defs.append("(* Timeline.tick, timeline.py lines %s: the bodies of its three loops (note-offs, actions, tracks) *)\n%s" % (lines, aux))
     defs.append("(* Timeline.tick, timeline.py lines %s *)\nDefinition src_timeline_tick (cfg : config) (self : timeline_t) : timeline_t * list call * opres :=\n  %s." % (lines, term))
+    term, lines = gen_perform_event(track)
+    defs.append("(* Track.perform_event, track.py lines %s: the guards, the dispatch on event.type, the control and program-change branches *)\n"
+                "Definition src_track_perform_event (fail : option nat) (nowT : Z) (self : track_t) (event : event) (n : nat) : track_t * list call * nat * performed :=\n  %s." % (lines, term))
     loop, first, second, lines = gen_track_tick(track)
     defs.append(loop)
     defs.append("(* Track.tick, track.py lines %s: from the start to the end of the try body (non-interpolating branch) *)\n"
